@@ -1,13 +1,17 @@
 (* SrvMonCancel: soundness of [mon_cancel_cause] (srv/SrvMonitors3.v) for every run of the server model.
 
-   If the environment contains a stop cause (a Stop call or a fed Recv error) the monitor says nothing.  Otherwise
-   stopLocked never runs: LRelStop needs a pending OpStop (only LCallStop queues one) and the reader never holds an
-   error (the closing error the model appends to the channel is appended by stopLocked only).  A task's cancelled flag
-   is then set only by LRelCancel n - whose pending OpCancel n id was queued by a label LCallCancel n id, and id is the
-   non-empty id of that task (C07: cancel_targets_raw, inv_used) - or by the delivery of its own unit, after which the
-   task is finished and reports nothing any more (a handler entry comes from a task before its handler, a handler
-   return from a task in its handler).  Every task was made from a member on the inbound path, and every member on
-   the inbound path was fed. *)
+   A task's cancelled flag is set (C07: cancel_targets_raw) by LRelCancel n - whose pending OpCancel n id was queued by
+   a label LCallCancel n id, and id is the non-empty id of that task (inv_used) -, by the delivery of its own unit -
+   after which the task is finished and reports nothing any more (a handler entry comes from a task before its
+   handler, a handler return from a task in its handler) -, or by stopLocked on a running server (LRelStop, LRelRead
+   holding a Recv error).  The critical section in which stopLocked runs on a running server reports [OClose] as its
+   first observation and no handler entry or return: so every context reported as cancelled BEFORE the first OClose
+   of the observation sequence was cancelled by CancelRequest ([CI], kept by every window that does not stop the
+   server).  If the environment contains no stop cause at all (no Stop call, no fed Recv error), stopLocked never
+   runs on a running server ([NS]: LRelStop needs a pending OpStop, only LCallStop queues one; the reader never
+   holds an error, the closing error the model appends to the channel being appended by stopLocked only): then every
+   context reported as cancelled anywhere was cancelled by CancelRequest.  Every task was made from a member on the
+   inbound path, and every member on the inbound path was fed. *)
 From Coq Require Import List NArith ZArith Bool Arith Lia.
 From RecordUpdate Require Import RecordUpdate.
 From JV Require Import Bytes Msg SrvModel SrvLemmas SrvBasics SrvC01 SrvHist SrvMonitors SrvMonBarrier SrvMonReply
@@ -15,18 +19,24 @@ From JV Require Import Bytes Msg SrvModel SrvLemmas SrvBasics SrvC01 SrvHist Srv
 From JV Require SrvC07 SrvC08 SrvMonDup.
 Import ListNotations.
 
-(** * the invariant, relative to a fixed environment sequence E without a stop cause *)
+(** * the invariants, relative to a fixed environment sequence E that contains every environment label taken *)
 Definition op_ok (E : list label) (o : op) : Prop :=
-  match o with OpStop _ => False | OpCancel _ id => In id (cancel_ids E) | OpPush _ _ _ _ => True end.
+  match o with OpCancel _ id => In id (cancel_ids E) | _ => True end.
 
+(* as long as stopLocked has not run on a running server *)
 Record CI (E : list label) (s : state) : Prop := {
   ci_canc : forall k t, nth_error (tasks s) k = Some t -> t_cancelled t = true -> finished t = false ->
               t_id t <> [] /\ In (t_id t) (cancel_ids E);
   ci_task : forall k t, nth_error (tasks s) k = Some t ->
               exists m, In m (fed_msgs E) /\ j_params m = t_params t /\ idk m = t_id t;
   ci_pend : forall m, In m (pend_msgs s) -> In m (fed_msgs E);
-  ci_ops : forall o, In o (ops s) -> op_ok E o;
-  ci_ferr : forall c, ~ In (FErr c) (ch_in s) /\ rd s <> RHold (FErr c)
+  ci_ops : forall o, In o (ops s) -> op_ok E o
+}.
+
+(* when E has no stop cause: no Stop call is pending and no Recv error is on the inbound path *)
+Record NS (s : state) : Prop := {
+  ns_ops : forall n, ~ In (OpStop n) (ops s);
+  ns_ferr : forall c, ~ In (FErr c) (ch_in s) /\ rd s <> RHold (FErr c)
 }.
 
 Lemma stop_label_in E l : stop_in E = false -> In l E -> is_stop_label l = false.
@@ -65,7 +75,7 @@ Lemma dequeue_CI_tasks E s : CI E s ->
   (forall k t, nth_error (tasks (dequeue s)) k = Some t ->
      exists m, In m (fed_msgs E) /\ j_params m = t_params t /\ idk m = t_id t).
 Proof.
-  intros [Cc Ct Cp _ _]. split.
+  intros [Cc Ct Cp _]. split.
   - intros k t E0 C F. destruct (dequeue_task_origin _ _ _ E0) as [Old|(m & u & ids & _ & ->)]; [eauto|].
     rewrite mk_task_cancelled in C. discriminate C.
   - intros k t E0. destruct (dequeue_task_origin _ _ _ E0) as [Old|(m & u & ids & Im & ->)]; [eauto|].
@@ -73,17 +83,35 @@ Proof.
 Qed.
 
 (** * one critical section *)
-Lemma raw_CI E c0 s l s' os : stop_in E = false -> reachf c0 s -> crash s = None -> CI E s ->
-  step_raw s l = Some (s', os) -> covers E l -> CI E s'.
+(* without a stop cause in E, stopLocked never runs on a running server *)
+Lemma raw_NS E s l s' os : stop_in E = false -> inv s -> NS s -> step_raw s l = Some (s', os) -> covers E l ->
+  NS s' /\ ~ stops s s'.
 Proof.
-  intros N R Cr W H Cv. pose proof W as [Cc Ct Cp Co Cf]. pose proof (reachf_inv _ _ R) as I.
-  destruct (raw_from _ _ _ _ I H) as [Fo Fc].
-  (* no stop happens in this critical section *)
-  assert (NoStop : running s = true -> running s' = false -> False).
-  { intros R1 R2. destruct (raw_stop_view _ _ _ _ I H) as [(_ & X & _)|[(c & Sc & _)|(X & _)]]; try congruence.
+  intros N I [No Nf] H Cv. destruct (raw_from _ _ _ _ I H) as [Fo Fc].
+  assert (NoStop : ~ stops s s').
+  { intros [R1 R2]. destruct (raw_stop_view _ _ _ _ I H) as [(_ & X & _)|[(c & Sc & _)|(X & _)]]; try congruence.
     destruct Sc as [n|c Rd].
-    - destruct (relstop_op _ _ _ _ H) as (n0 & Hn). exact (Co _ Hn).
-    - exact (proj2 (Cf c) Rd). }
+    - destruct (relstop_op _ _ _ _ H) as (n0 & Hn). exact (No _ Hn).
+    - exact (proj2 (Nf c) Rd). }
+  split; [|exact NoStop]. constructor.
+  - intros n Hn. destruct (Fo _ Hn) as [X|X]; [exact (No _ X)|].
+    destruct l; cbn in X; try discriminate X. injection X as ->.
+    assert (Hl : In (LCallStop n) E) by (apply Cv; reflexivity).
+    pose proof (stop_label_in _ _ N Hl) as Z. discriminate Z.
+  - intros c. split.
+    + intros Hi. destruct (Fc _ Hi) as [X|[X|(_ & R1 & R2)]].
+      * exact (proj1 (Nf c) X).
+      * assert (Hl : In l E) by (apply Cv; rewrite X; reflexivity).
+        pose proof (stop_label_in _ _ N Hl) as Z. rewrite X in Z. discriminate Z.
+      * apply NoStop. split; assumption.
+    + intros Hr. apply (proj2 (Nf c)). eapply raw_rd_hold; eauto.
+Qed.
+
+Lemma raw_CI E c0 s l s' os : reachf c0 s -> crash s = None -> CI E s ->
+  step_raw s l = Some (s', os) -> covers E l -> ~ stops s s' -> CI E s'.
+Proof.
+  intros R Cr W H Cv NoStop. pose proof W as [Cc Ct Cp Co]. pose proof (reachf_inv _ _ R) as I.
+  destruct (raw_from _ _ _ _ I H) as [Fo _].
   assert (Back : length (tasks s') = length (tasks s) ->
     (forall k t, nth_error (tasks s') k = Some t -> t_cancelled t = true -> finished t = false ->
        t_id t <> [] /\ In (t_id t) (cancel_ids E)) /\
@@ -92,12 +120,14 @@ Proof.
     - intros k t' E' C' F'. destruct (SrvC07.back_task s s' k t' X L E') as (t & Et & Le).
       pose proof (finished_back _ _ Le F') as F. destruct Le as [_ Li _ _ _ _ _ _ _]. rewrite Li.
       destruct (t_cancelled t) eqn:C; [eauto|].
+      assert (Same : tasks s' = tasks s -> False).
+      { intros T. rewrite T, Et in E'. injection E' as <-. congruence. }
       destruct (SrvC07.cancel_targets_raw _ _ _ _ _ _ _ _ R Cr H Et E' C C') as [n id Fo' As Ei|n|e Rd|].
       + apply SrvC07.find_op_some in Fo' as [Io _]. specialize (Co _ Io). cbn in Co. rewrite Ei. split; auto.
         apply assoc_in in As. destruct (SrvC07.iu_in _ (SrvC07.reachf_inv_used _ _ R) _ _ As) as (_ & _ & _ & Ni & _).
         exact Ni.
-      + destruct (relstop_op _ _ _ _ H) as (n0 & Hn). destruct (Co _ Hn).
-      + destruct (proj2 (Cf e) Rd).
+      + destruct (relstop_view _ _ _ _ H) as [(St & _)|T]; [destruct (NoStop St)|destruct (Same T)].
+      + destruct (relread_err_view _ _ _ _ Rd H) as [(St & _)|T]; [destruct (NoStop St)|destruct (Same T)].
       + (* its own delivery: the task had finished *)
         unfold step_raw in H. destruct (nth_error (units s) (t_unit t)) as [un|] eqn:Eu; [|discriminate].
         destruct (u_st un) eqn:Su; try discriminate.
@@ -119,19 +149,8 @@ Proof.
     apply (fed_label_in E f m); [apply Cv; reflexivity|exact Hm].
   - (* pending operations *)
     intros o Ho. destruct (Fo _ Ho) as [X|X]; [auto|].
-    destruct l; cbn in X; try discriminate X; injection X as <-; cbn.
-    + assert (In (LCallStop n) E) by (apply Cv; reflexivity).
-      pose proof (stop_label_in _ _ N H0) as Z. discriminate Z.
-    + apply (cancel_label_in E n id). apply Cv. reflexivity.
-    + exact Logic.I.
-  - (* no Recv error on the inbound path *)
-    intros c. split.
-    + intros Hi. destruct (Fc _ Hi) as [X|[X|(_ & R1 & R2)]].
-      * exact (proj1 (Cf c) X).
-      * assert (In l E) by (apply Cv; rewrite X; reflexivity).
-        pose proof (stop_label_in _ _ N H0) as Z. rewrite X in Z. discriminate Z.
-      * exact (NoStop R1 R2).
-    + intros Hr. apply (proj2 (Cf c)). eapply raw_rd_hold; eauto.
+    destruct l; cbn in X; try discriminate X; injection X as <-; cbn; try exact Logic.I.
+    apply (cancel_label_in E n id). apply Cv. reflexivity.
 Qed.
 
 (* what a critical section reports about cancelled contexts *)
@@ -172,7 +191,7 @@ Qed.
 Lemma raw_cancelled_named E s l s' os p : inv s -> CI E s -> step_raw s l = Some (s', os) ->
   In p (cancelled_params os) -> cancel_named E p = true.
 Proof.
-  intros I [Cc Ct _ _ _] H Hp. apply in_cancelled_params in Hp as [Hp|Hp].
+  intros I [Cc Ct _ _] H Hp. apply in_cancelled_params in Hp as [Hp|Hp].
   - pose proof (raw_obs _ _ _ _ _ I H Hp) as O. cbn in O.
     destruct O as (k & t & t' & Et & _ & Ep & Ec & Rk & _).
     assert (F : finished t = false) by (unfold finished; destruct (t_st t); cbn in Rk; try reflexivity; lia).
@@ -187,7 +206,7 @@ Qed.
 (** * one wake-up *)
 Lemma settle1_CI E s s' os : CI E s -> settle1 s = Some (s', os) -> CI E s'.
 Proof.
-  intros W H. pose proof W as [Cc Ct Cp Co Cf]. destruct (settle1_from _ _ _ H) as (Eo & _ & _ & Ch & Rd).
+  intros W H. pose proof W as [Cc Ct Cp Co]. destruct (settle1_from _ _ _ H) as (Eo & _ & _ & Ch & Rd).
   assert (Tk : (forall k t, nth_error (tasks s') k = Some t -> t_cancelled t = true -> finished t = false ->
        t_id t <> [] /\ In (t_id t) (cancel_ids E)) /\
     (forall k t, nth_error (tasks s') k = Some t -> exists m, In m (fed_msgs E) /\ j_params m = t_params t /\ idk m = t_id t)).
@@ -198,9 +217,15 @@ Proof.
   destruct Tk as [Tk1 Tk2]. constructor; auto.
   - intros m Hm. apply Cp. eapply SrvMonDup.settle1_pend; eauto.
   - intros o Ho. rewrite Eo in Ho. auto.
+Qed.
+
+Lemma settle1_NS s s' os : NS s -> settle1 s = Some (s', os) -> NS s'.
+Proof.
+  intros [No Nf] H. destruct (settle1_from _ _ _ H) as (Eo & _ & _ & Ch & Rd). constructor.
+  - intros n Hn. rewrite Eo in Hn. exact (No _ Hn).
   - intros c. split.
-    + intros Hi. exact (proj1 (Cf c) (Ch _ Hi)).
-    + intros Hr. destruct (Rd _ Hr) as [X|X]; [exact (proj2 (Cf c) X)|exact (proj1 (Cf c) X)].
+    + intros Hi. exact (proj1 (Nf c) (Ch _ Hi)).
+    + intros Hr. destruct (Rd _ Hr) as [X|X]; [exact (proj2 (Nf c) X)|exact (proj1 (Nf c) X)].
 Qed.
 
 Lemma settle_CI E c0 : forall fuel s acc s' os, reachf c0 s -> CI E s -> settle fuel s acc = (s', os) -> CI E s'.
@@ -209,6 +234,15 @@ Proof.
   - injection H as <- _. exact W.
   - destruct (settle1 s) as [[s1 os1]|] eqn:E1.
     + eapply IH; [eapply rf_settle; eauto|eapply settle1_CI; eauto|exact H].
+    + injection H as <- _. exact W.
+Qed.
+
+Lemma settle_NS : forall fuel s acc s' os, NS s -> settle fuel s acc = (s', os) -> NS s'.
+Proof.
+  induction fuel as [|f IH]; cbn; intros s acc s' os W H.
+  - injection H as <- _. exact W.
+  - destruct (settle1 s) as [[s1 os1]|] eqn:E1.
+    + eapply IH; [eapply settle1_NS; eauto|exact H].
     + injection H as <- _. exact W.
 Qed.
 
@@ -222,32 +256,72 @@ Qed.
 Lemma cancelled_params_app a b : cancelled_params (a ++ b) = cancelled_params a ++ cancelled_params b.
 Proof. apply flat_map_app. Qed.
 
-(** * one window *)
-Lemma step_CI E c0 s l s' os : stop_in E = false -> reachf c0 s -> CI E s -> step s l = Some (s', os) -> covers E l ->
-  CI E s' /\ forall p, In p (cancelled_params os) -> cancel_named E p = true.
+(** * one window: either it stops the server - its first observation is then the close of the channel - or the
+    invariant is kept and every cancelled context it reports is named *)
+Lemma step_CI E c0 s l s' os : reachf c0 s -> CI E s -> step s l = Some (s', os) -> covers E l ->
+  ((exists r, os = OClose :: r) /\ (stop_in E = false -> NS s -> False)) \/
+  (CI E s' /\ (forall p, In p (cancelled_params os) -> cancel_named E p = true) /\
+   (stop_in E = false -> NS s -> NS s')).
 Proof.
-  intros N R W H Cv. pose proof (reachf_inv _ _ R) as I.
+  intros R W H Cv. pose proof (reachf_inv _ _ R) as I.
   apply step_decompose in H as (Cr & s1 & os1 & Hr & Hs).
-  pose proof (raw_CI _ _ _ _ _ _ N R Cr W Hr Cv) as W1.
-  destruct Hs as [(_ & -> & ->)|(_ & Hs)].
-  - split; auto. intros p Hp. exact (raw_cancelled_named E _ _ _ _ p I W Hr Hp).
-  - split; [eapply settle_CI; [eapply rf_raw; eauto|exact W1|exact Hs]|].
-    destruct (settle_obs_app _ _ _ _ _ Hs) as (ex & -> & Fx).
-    intros p Hp. rewrite cancelled_params_app, (settle_obs_no_cancelled _ Fx), app_nil_r in Hp.
-    exact (raw_cancelled_named E _ _ _ _ p I W Hr Hp).
+  destruct (stops_dec s s1) as [St|NoStop].
+  - left. split; [|intros N Ns; exact (proj2 (raw_NS _ _ _ _ _ N I Ns Hr Cv) St)].
+    destruct (raw_stop_obs _ _ _ _ I Hr St) as (r & ->).
+    destruct Hs as [(_ & _ & ->)|(_ & Hs)]; [eauto|].
+    destruct (settle_obs_app _ _ _ _ _ Hs) as (ex & -> & _). exists (r ++ ex). reflexivity.
+  - right. pose proof (raw_CI _ _ _ _ _ _ R Cr W Hr Cv NoStop) as W1.
+    destruct Hs as [(_ & -> & ->)|(_ & Hs)].
+    + split; auto. split; [intros p Hp; exact (raw_cancelled_named E _ _ _ _ p I W Hr Hp)|].
+      intros N Ns. exact (proj1 (raw_NS _ _ _ _ _ N I Ns Hr Cv)).
+    + split; [eapply settle_CI; [eapply rf_raw; eauto|exact W1|exact Hs]|]. split.
+      * destruct (settle_obs_app _ _ _ _ _ Hs) as (ex & -> & Fx).
+        intros p Hp. rewrite cancelled_params_app, (settle_obs_no_cancelled _ Fx), app_nil_r in Hp.
+        exact (raw_cancelled_named E _ _ _ _ p I W Hr Hp).
+      * intros N Ns. eapply settle_NS; [exact (proj1 (raw_NS _ _ _ _ _ N I Ns Hr Cv))|exact Hs].
 Qed.
 
 (** * runs *)
-Lemma run_CI E c0 : stop_in E = false -> forall tr s s' oss, reachf c0 s -> CI E s -> (forall l, In l tr -> covers E l) ->
-  run s tr = Some (s', oss) -> forall p, In p (cancelled_params (concat oss)) -> cancel_named E p = true.
+Lemma before_close_cancelled a b p : In p (cancelled_params (before_close (a ++ b))) ->
+  In p (cancelled_params a) \/ In p (cancelled_params (before_close b)).
 Proof.
-  intros N. induction tr as [|l r IH]; cbn [run]; intros s s' oss R W Cv H p Hp.
+  induction a as [|o a IH]; cbn [app]; [auto|]. intros H.
+  assert (K : In p (cancelled_params (o :: before_close (a ++ b))) ->
+              In p (cancelled_params (o :: a)) \/ In p (cancelled_params (before_close b))).
+  { change (cancelled_params (o :: before_close (a ++ b))) with (cancelled_of o ++ cancelled_params (before_close (a ++ b))).
+    change (cancelled_params (o :: a)) with (cancelled_of o ++ cancelled_params a).
+    intros Hi. apply in_app_or in Hi as [Hi|Hi]; [left; apply in_or_app; auto|].
+    destruct (IH Hi) as [X|X]; [left; apply in_or_app; auto|right; exact X]. }
+  destruct o; cbn [before_close] in H; try (apply K; exact H). destruct H.
+Qed.
+
+(* before the first close: every cancelled context reported is named *)
+Lemma run_CI E c0 : forall tr s s' oss, reachf c0 s -> CI E s -> (forall l, In l tr -> covers E l) ->
+  run s tr = Some (s', oss) -> forall p, In p (cancelled_params (before_close (concat oss))) -> cancel_named E p = true.
+Proof.
+  induction tr as [|l r IH]; cbn [run]; intros s s' oss R W Cv H p Hp.
   - injection H as <- <-. destruct Hp.
   - destruct (step s l) as [[s1 os]|] eqn:E1; [|discriminate].
     destruct (run s1 r) as [[s2 oss2]|] eqn:E2; [|discriminate]. injection H as <- <-.
-    destruct (step_CI E c0 _ _ _ _ N R W E1 (Cv l (or_introl eq_refl))) as (W1 & C1).
+    cbn [concat] in Hp.
+    destruct (step_CI E c0 _ _ _ _ R W E1 (Cv l (or_introl eq_refl))) as [((r0 & ->) & _)|(W1 & C1 & _)].
+    + cbn in Hp. destruct Hp.
+    + apply before_close_cancelled in Hp as [Hp|Hp]; [auto|].
+      eapply (IH _ _ _ (step_reachf _ _ _ _ _ R E1) W1 (fun l0 H0 => Cv l0 (or_intror H0)) E2); eauto.
+Qed.
+
+(* without a stop cause in the environment: every cancelled context reported is named *)
+Lemma run_CI_nostop E c0 : stop_in E = false -> forall tr s s' oss, reachf c0 s -> CI E s -> NS s ->
+  (forall l, In l tr -> covers E l) ->
+  run s tr = Some (s', oss) -> forall p, In p (cancelled_params (concat oss)) -> cancel_named E p = true.
+Proof.
+  intros N. induction tr as [|l r IH]; cbn [run]; intros s s' oss R W Ns Cv H p Hp.
+  - injection H as <- <-. destruct Hp.
+  - destruct (step s l) as [[s1 os]|] eqn:E1; [|discriminate].
+    destruct (run s1 r) as [[s2 oss2]|] eqn:E2; [|discriminate]. injection H as <- <-.
+    destruct (step_CI E c0 _ _ _ _ R W E1 (Cv l (or_introl eq_refl))) as [(_ & Z)|(W1 & C1 & Ns1)]; [destruct (Z N Ns)|].
     cbn [concat] in Hp. rewrite cancelled_params_app in Hp. apply in_app_or in Hp as [Hp|Hp]; [auto|].
-    eapply (IH _ _ _ (step_reachf _ _ _ _ _ R E1) W1 (fun l0 H0 => Cv l0 (or_intror H0)) E2); eauto.
+    eapply (IH _ _ _ (step_reachf _ _ _ _ _ R E1) W1 (Ns1 N Ns) (fun l0 H0 => Cv l0 (or_intror H0)) E2); eauto.
 Qed.
 
 Lemma CI_init E c0 : CI E (init_of c0).
@@ -257,21 +331,57 @@ Proof.
   - intros k t H. destruct k; discriminate H.
   - intros m [].
   - intros o [].
+Qed.
+
+Lemma NS_init c0 : NS (init_of c0).
+Proof.
+  constructor.
+  - intros n [].
   - intros c. split; [intros []|intros H; discriminate H].
 Qed.
 
 (** * Soundness *)
+(* a context reported as cancelled before the first close of the channel was cancelled by CancelRequest *)
+Theorem cancelled_before_close_named c tr s oss p : run (init_of c) tr = Some (s, oss) ->
+  In p (cancelled_params (before_close (concat oss))) -> cancel_named (env_of tr) p = true.
+Proof.
+  intros H Hp. exact (run_CI (env_of tr) c tr _ _ _ (rf_init c) (CI_init _ c) (covers_env_of tr) H p Hp).
+Qed.
+
 Theorem cancelled_has_cause c tr s oss p : run (init_of c) tr = Some (s, oss) ->
   In p (cancelled_params (concat oss)) -> stop_in (env_of tr) = false -> cancel_named (env_of tr) p = true.
 Proof.
-  intros H Hp N. exact (run_CI (env_of tr) c N tr _ _ _ (rf_init c) (CI_init _ c) (covers_env_of tr) H p Hp).
+  intros H Hp N.
+  exact (run_CI_nostop (env_of tr) c N tr _ _ _ (rf_init c) (CI_init _ c) (NS_init c) (covers_env_of tr) H p Hp).
 Qed.
 
 Theorem mon_cancel_cause_sound c tr s oss : run (init_of c) tr = Some (s, oss) ->
   mon_cancel_cause (env_of tr) (concat oss) = true.
 Proof.
-  intros H. unfold mon_cancel_cause. destruct (stop_in (env_of tr)) eqn:N; [reflexivity|]. cbn [orb].
-  apply forallb_forall. intros p Hp. eapply cancelled_has_cause; eauto.
+  intros H. unfold mon_cancel_cause. apply andb_true_iff. split.
+  - apply forallb_forall. intros p Hp. eapply cancelled_before_close_named; eauto.
+  - destruct (stop_in (env_of tr)) eqn:N; [reflexivity|]. cbn [orb].
+    apply forallb_forall. intros p Hp. eapply cancelled_has_cause; eauto.
+Qed.
+
+(* the observations before the first close, spelled out *)
+Lemma before_close_spec os : forall o, In o (before_close os) <->
+  exists pre post, os = pre ++ o :: post /\ ~ In OClose pre /\ o <> OClose.
+Proof.
+  induction os as [|x os IH]; intros o.
+  - cbn. split; [intros []|]. intros (pre & post & E & _). destruct pre; discriminate E.
+  - assert (K : x <> OClose -> (In o (x :: before_close os) <->
+                  exists pre post, x :: os = pre ++ o :: post /\ ~ In OClose pre /\ o <> OClose)).
+    { intros Nx. split.
+      - intros [<-|Hi]; [exists [], os; repeat split; auto|].
+        apply IH in Hi as (pre & post & -> & Np & No). exists (x :: pre), post. repeat split; auto.
+        intros [Z|Z]; [exact (Nx Z)|exact (Np Z)].
+      - intros (pre & post & E & Np & No). destruct pre as [|y pre]; injection E as -> E; [left; reflexivity|].
+        right. apply IH. exists pre, post. repeat split; auto. intros Z. apply Np. right. exact Z. }
+    destruct x; try (apply K; discriminate). cbn [before_close]. split; [intros []|].
+    intros (pre & post & E & Np & No). destruct pre as [|y pre]; injection E as E1 E2.
+    + symmetry in E1. destruct (No E1).
+    + apply Np. left. symmetry. exact E1.
 Qed.
 
 (* spelled out: a handler that sees its context cancelled either runs in a scenario with a stop cause (a Stop call or a
@@ -349,8 +459,9 @@ Example mon_cancel_cause_nonvacuous :
 Proof. vm_compute. repeat split; auto; discriminate. Qed.
 
 (* sensitivity: a cancelled context although nobody cancelled anything; although another id was cancelled; although
-   the id of a request with OTHER params was cancelled; fine when the id was cancelled, or after a Stop call, or
-   when the context is not cancelled *)
+   the id of a request with OTHER params was cancelled; fine when the id was cancelled, or - after the close of the
+   channel - when the environment stopped the server (not before the close, and not without a stop cause), or when the
+   context is not cancelled *)
 Example mon_cancel_cause_sensitive :
   let fed := [LStart; LFeed (FMsg (InMsgs false [ex_call [49%N] [91;93]%N])); LFeed (FMsg (InMsgs false [ex_call [50%N] [91;49;93]%N]))] in
   mon_cancel_cause fed [OStart [91;93]%N false; OGate [91;93]%N true] = false /\
@@ -358,8 +469,10 @@ Example mon_cancel_cause_sensitive :
   mon_cancel_cause (fed ++ [LCallCancel 0 [51%N]]) [OGate [91;93]%N true] = false /\
   mon_cancel_cause (fed ++ [LCallCancel 0 [50%N]]) [OGate [91;93]%N true] = false /\
   mon_cancel_cause (fed ++ [LCallCancel 0 [49%N]]) [OGate [91;93]%N true] = true /\
-  mon_cancel_cause (fed ++ [LCallStop 0]) [OGate [91;93]%N true] = true /\
-  mon_cancel_cause (fed ++ [LFeed (FErr SCEOF)]) [OGate [91;93]%N true] = true /\
+  mon_cancel_cause (fed ++ [LCallStop 0]) [OClose; OGate [91;93]%N true] = true /\
+  mon_cancel_cause (fed ++ [LFeed (FErr SCEOF)]) [OClose; OGate [91;93]%N true] = true /\
+  mon_cancel_cause (fed ++ [LCallStop 0]) [OGate [91;93]%N true; OClose] = false /\
+  mon_cancel_cause fed [OClose; OGate [91;93]%N true] = false /\
   mon_cancel_cause fed [OStart [91;93]%N false; OGate [91;93]%N false] = true /\
   mon_cancel_cause [LStart; LFeed (FMsg (InMsgs false [ex_note [91;93]%N])); LCallCancel 0 []] [OGate [91;93]%N true] = false.
 Proof. vm_compute. repeat split; reflexivity. Qed.
